@@ -319,7 +319,10 @@ def checkStep (e : Env) (pre : Sys) (op : Op) (res : Res) (post : Sys) (origin :
     -- after the end-blocker of height h an entry must lie beyond h; inside the block the entry at h is still to come
     let stuck := post.st.orders.filter (fun o => unfinished post.st o &&
       !(post.st.timeoutQ.any (fun e => ((e.1 : Int) > post.st.h || (!isBlockEnd op && (e.1 : Int) = post.st.h)) && e.2.contains o.id)))
-    let wasStuck := fun (o : Order) => unfinished pre.st o && !(pre.st.timeoutQ.any (fun e => (e.1 : Int) ≥ pre.st.h && e.2.contains o.id))
+    -- (the order as it was before the step: a pending order is not yet "handed to providers")
+    let wasStuck := fun (o : Order) => match pre.st.getOrder o.id with
+      | some o0 => unfinished pre.st o0 && !(pre.st.timeoutQ.any (fun e => (e.1 : Int) ≥ pre.st.h && e.2.contains o.id))
+      | none => false
     (stuck.filter (fun o => !wasStuck o)).map (fun o =>
       ("C12", s!"clause=timeoutPending cls={if isBlockEnd op && addU64 (toU64 post.st.h) o.timeout ≥ addU64 o.createdAt o.duration then "near-end-of-life" else "none"} rec=order{o.id}"))
    else []) ++
